@@ -62,6 +62,9 @@ MEMBERS = {
     "dunder": ("def __init__(self, v=3):\n    self.v = v\ndef __repr__(self):\n    return f'K({self.v})'\ndef __eq__(self, o):\n    return self.v == o.v\ndef __len__(self):\n    return self.v",
                "print(K(), K(2) == K(2), len(K(4)))"),
     "lambda": ("f = lambda self: 11\ng = [i * 2 for i in range(3)]", "print(K().f(), K.g)"),
+    "member-in-inner": ("base = [1, 2, 3]\nsquares = [x * x for x in base]\nwidths = {f: len(f) for f in ('a', 'bb')}\nscale = 3\n"
+                        "times = lambda self, v, s=scale: v * s\ngen = list(b + 1 for b in base if b)\nfirst = {q for q in base}",
+                        "print(K.squares, K.widths, K().times(2), K.gen, sorted(K.first))"),
     # the two hooks type.__new__ makes class methods implicitly - when, and only when, the member is a plain function
     "hook-getitem": ("def __class_getitem__(cls, key):\n    return (cls.__name__, key)", "print(K[1], K['a'])"),
     "hook-getitem-cm": ("@classmethod\ndef __class_getitem__(cls, key):\n    return (cls.__name__, key)", "print(K[1], K['a'])"),
